@@ -999,6 +999,14 @@ impl Context {
                     ErrorType::Unknown,
                 ));
             }
+            // An enum value may not share its name with a function in the same scope either
+            Some(VariableExpression::Function(UnresolvedFunction { ref overloads })) => {
+                return Err(TyperError::ValueAlreadyDefined(
+                    name.clone(),
+                    ErrorType::Function(overloads.clone()),
+                    ErrorType::Unknown,
+                ));
+            }
             Some(VariableExpression::EnumValueUntyped(_, _)) => {
                 panic!("Non-untyped enum value ended up in parent scope")
             }
